@@ -389,6 +389,17 @@ class H5Driver:
         else:
             src = self.path
         self.paths_checked += check_file(src, exp, self.level, self.rng)
+        # the file's throw counter is the sum over all adds that reached the particle stage, over all sessions
+        want_thrown = int(st['F']['thrown'])
+        if want_thrown > 0:
+            f = open_reader(src)
+            try:
+                got_thrown = int(f.total_events_thrown)
+            finally:
+                f.close()
+            if got_thrown != want_thrown:
+                raise Divergence('total_events_thrown of the file after %d accepted adds in %d session(s)' % (len(acc), int(st['w']['n'])),
+                                 want_thrown, got_thrown)
         if self.generator and not is_open:
             self.gen_runs += check_generator(src, exp, 'full' if self.level == 'full' else 'sample')
 
